@@ -228,6 +228,14 @@ def directed_queries():
         col = "name" if lit.startswith("'") else "size"
         out.append([Tok("col", "name"), Tok("kw", "from"), Tok("path", "t"), Tok("kw", "where"), Tok("col", col), Tok("op", g[0], g),
                     Tok("lit", lit), Tok("kw", "into"), Tok("fmt", "list")])
+    # dozens of bracketed terms in one condition (both bracket kinds must take them)
+    for nterms in (34,):
+        toks = [Tok("col", "name"), Tok("kw", "from"), Tok("path", "t"), Tok("kw", "where")]
+        for k in range(nterms):
+            if k:
+                toks.append(Tok("kw", "or"))
+            toks += [Tok("open", "(", glue="R"), Tok("col", "size"), Tok("op", "=", group_of(OP_GROUPS, "=")), Tok("num", str(k)), Tok("close", ")", glue="L")]
+        out.append(toks + [Tok("kw", "into"), Tok("fmt", "list")])
     for lit in ("'my file.txt'", '"my file.txt"', "'a b c'", "`my file.txt`"):
         out.append([Tok("col", "path"), Tok("kw", "from"), Tok("path", "t"), Tok("kw", "where"), Tok("col", "name"), Tok("op", "=", group_of(OP_GROUPS, "=")),
                     Tok("lit", lit), Tok("kw", "into"), Tok("fmt", "list")])
